@@ -20,6 +20,7 @@ from ..gen import files as G
 from ..load import REPO, load
 from ..monitors import LayoutMonitor
 from ..refs import container, ecies
+from ..refs import layout as L
 from ..refs.layout import MComp
 
 ID = "C03"
@@ -58,7 +59,7 @@ def plan(tier, seed):
 
 def mandatory_bins(tier):
     b = ["offset_%d" % o for o in OFFSETS] + ["offset_random", "tag_order_not_sorted", "encrypted_component", "zero_components", "eight_tags",
-         "text_stream", "text_path", "bec2", "appnote_scripts", "block_cust_opened", "block_update_opened", "block_ecc_opened", "customer_key_in_slot", "histories_under_layout_hooks", "second_export_after_in_place_mutation", "more_than_255_components", "directory_larger_than_64k", "bec2_without_auth_blocks", "encrypted_payload_over_8k", "same_component_object_listed_twice", "exports_by_concurrent_threads", "one_object_exported_by_concurrent_threads", "description_is_a_dict_subclass"]
+         "text_stream", "text_path", "bec2", "appnote_scripts", "block_cust_opened", "block_update_opened", "block_ecc_opened", "customer_key_in_slot", "histories_under_layout_hooks", "second_export_after_in_place_mutation", "more_than_255_components", "directory_larger_than_64k", "bec2_without_auth_blocks", "encrypted_payload_over_8k", "same_component_object_listed_twice", "exports_by_concurrent_threads", "one_object_exported_by_concurrent_threads", "description_is_a_dict_subclass", "unmarked_component_carrying_the_enc_02_tag"]
     b += ["blocks_" + "+".join(l) for l in GB.all_block_lists()]
     return b
 
@@ -79,6 +80,13 @@ def gen_case_c03(rng):
             case.comps.insert(rng.randrange(len(case.comps) + 1), MComp(desc, blob, len(blob), True))
     if rng.random() < 0.1:
         case.comps.append(MComp([(t, bytes([t])) for t in (9, 3, 200, 1, 0xC3, 7, 0, 255)], b"eight tags", None, False))
+    if rng.random() < 0.12:
+        # a component NOT marked for encryption whose tag list nevertheless says ENC = 02 (payload kept in its stored form, or the
+        # tag used as plain metadata): the writer stores the blob verbatim - the flag decides, not the tag
+        blob = G.gen_payload(rng)
+        desc = [(t, v) for t, v in G.gen_desc(rng, maxbytes=200) if t != 0xC2]
+        desc.insert(rng.randrange(len(desc) + 1), (0xC2, b"\x02"))
+        case.comps.insert(rng.randrange(len(case.comps) + 1), MComp(desc, blob, None if rng.random() < 0.5 else len(blob), False))
     return case
 
 
@@ -93,6 +101,8 @@ def note_bins(ctx, case):
             ctx.bin("encrypted_component")
         if len(ts) >= 8:
             ctx.bin("eight_tags")
+        if not c.encrypted and any(t == 0xC2 and bytes(v) == b"\x02" for t, v in c.desc):
+            ctx.bin("unmarked_component_carrying_the_enc_02_tag")
 
 
 def run_bf3(ns, ctx, mon, case, key, offset, scratch, idx, dup=False):
@@ -121,7 +131,13 @@ def run_bf3(ns, ctx, mon, case, key, offset, scratch, idx, dup=False):
         obj.components.insert(ctx.rng.randrange(len(obj.components) + 1), obj.components[j])
         ctx.bin("same_component_object_listed_twice")
     try:
-        obj.to_binary(offset, key)
+        first = obj.to_binary(offset, key)
+        if not dup and not (obj.components and idx % 7 == 2):
+            # the hook models the object as it stands; this one models what the CALLER passed (flag, tags, blob, declared length)
+            ctx.mon("oracle:first_export_vs_model_of_the_callers_arguments")
+            want = L.serialise_body([MComp([(t, bytes(v)) for t, v in c.desc], c.blob, c.declared, c.encrypted) for c in case.comps], offset, key)
+            if bytes(first) != want:
+                ctx.violation("export_differs_from_model_built_from_the_constructor_arguments", {"what": "Bf3File.to_binary output differs from the independent serialisation of the components as the caller passed them", "observed_head": bytes(first)[:64].hex(), "expected_head": want[:64].hex()}, rp)
         if idx % 3 == 0:
             buf = io.StringIO()
             buf.write("prefix already in the stream\n" if idx % 6 == 0 else "")
